@@ -75,12 +75,11 @@ def onoff(b):
 CONFIGS = [
     dict(name="plain", managed=False, token=False),
     dict(name="managed", managed=True, token=False),
-    dict(name="token", managed=True, token=True),
-    dict(name="require_actor", managed=True, token=False, require_actor=True),
+    dict(name="token_require_actor", managed=True, token=True, require_actor=True),
     dict(name="require_request_id", managed=True, token=False, require_request_id=True),
     dict(name="actor_policy", managed=True, token=False, actor_allow=["ops", "svc"], actor_prefix=["role:ops/"]),
     dict(name="actor_policy_excl", managed=True, token=False, actor_allow=["svc"], require_request_id=True),
-    dict(name="plain2", managed=False, token=True),
+    dict(name="plain_token_mcp_without_config", managed=False, token=True, mcp_without_config=True),
 ]
 
 
@@ -644,7 +643,7 @@ def http_requests(rng, intent, pop, recvs, tier):
                 ids_req(verb, "normal", audit_mode=mode)
     # --- by-filter endpoints
     for verb in verbs3:
-        for _ in range(10 if tier == "quick" else 40):
+        for _ in range(7 if tier == "quick" else 40):
             filter_req(verb)
         # boundary limits with few other criteria, so that the cap itself decides
         for lim in (-1, 0, 1, 1000, 1001):
@@ -870,7 +869,7 @@ def mcp_calls(rng, intent, pop, recvs, use_config, tier):
     ids_call(rng.choice(verbs5), "normal", ids_override=["m0001", 7], tag="ids-not-strings")
     unmanaged = [r for r in intent["routes"] if r not in intent["owners"]]
     for verb in verbs3:
-        for _ in range(7 if tier == "quick" else 30):
+        for _ in range(5 if tier == "quick" else 30):
             filter_call(verb)
         for lim in (-1, 0, 1, 1000, 1001):
             filter_call(verb, force=dict(limit=lim, target=None, before_ns=None, state=None, route=rng.choice(unmanaged)))
@@ -1147,7 +1146,9 @@ def big_group(rng, backend):
 
 def make_groups(rng, tier):
     groups = [big_group(rng, "memory"), big_group(rng, "sqlite")]
-    order = [0, 1, 2, 3, 4, 5, 6, 7] if tier == "quick" else list(range(len(CONFIGS))) * 4
+    # quick: no managed routes (its MCP phase runs without --config); managed routes; token + require_actor;
+    # actor allow-list that excludes the MCP principal + require_request_id.  thorough: all seven, four populations each.
+    order = [0, 1, 2, 5] if tier == "quick" else list(range(len(CONFIGS))) * 4
     for gi, ci in enumerate(order):
         text, intent = make_config(CONFIGS[ci])
         for backend in ("memory", "sqlite"):
@@ -1155,7 +1156,7 @@ def make_groups(rng, tier):
             g = dict(config=text, backend=backend, now=T0, setup=steps, intent=intent, pop=pop,
                      requests=http_requests(rng, intent, pop, recvs, tier))
             if backend == "sqlite":
-                use_config = not (ci == 7 or (ci == 1 and gi >= len(CONFIGS)))
+                use_config = not (CONFIGS[ci].get("mcp_without_config") or (ci == 0 and tier == "quick") or (ci == 1 and gi >= len(CONFIGS)))
                 g["mcp_calls"] = mcp_calls(rng, intent, pop, recvs, use_config, tier)
                 g["mcp"] = dict(use_config=use_config, principal=PRINCIPAL, role="operate", mutations=True)
             groups.append(g)
